@@ -693,8 +693,7 @@ pub fn run_programs_at(
     }
     let mut foreign = 0;
     for f in found.into_inner().unwrap() {
-        let tag = super::tag_of(&f.msg).unwrap_or_default();
-        if !accept.contains(&tag.as_str()) {
+        if !super::accepted(accept, &f.msg) {
             foreign += 1;
             continue;
         }
